@@ -3,6 +3,7 @@
 package checks
 
 import (
+	"runtime"
 	"crypto/sha1"
 	"encoding/json"
 	"fmt"
@@ -40,6 +41,20 @@ func verifDir() string {
 		return d
 	}
 	return "/verif"
+}
+
+func loadFactor() float64 {
+	b, err := os.ReadFile("/proc/loadavg")
+	if err != nil {
+		return 1
+	}
+	var l1 float64
+	fmt.Sscanf(string(b), "%f", &l1)
+	f := 1 + l1/float64(runtime.NumCPU())
+	if f > 6 {
+		f = 6
+	}
+	return f
 }
 
 // Family is the set of instances explored for one property at one tier.
@@ -438,6 +453,18 @@ func Execute(id, tier string, seed int64, verbose bool) int {
 	qms := 8000
 	if tier == "thorough" {
 		qms = 120000
+	}
+	// The time limits were tuned on an otherwise idle machine. Other work on the machine
+	// slows every solver call down, so the limits are stretched by the load found at the
+	// start (1 + runnable processes per core, at most 6x); verdicts do not depend on it,
+	// only how soon a query is given up as unknown.
+	lf := loadFactor()
+	qms = int(float64(qms) * lf)
+	if fam.PerInst > 0 {
+		fam.PerInst = time.Duration(float64(fam.PerInst) * lf)
+	}
+	if fam.Bounds != nil {
+		fam.Bounds["time_limit_stretch_for_machine_load"] = fmt.Sprintf("%.1f", lf)
 	}
 	r := &Runner{Prog: prog, Workers: workers, Solver: solverChoice(), QueryMs: qms, Tier: tier, Seed: seed, Verbose: verbose, MaxPaths: 400000}
 	r.BudgetIsViolation = fam.BudgetIsViolation
